@@ -375,3 +375,178 @@ Fixpoint honest_evs_b (drift : Z) (tv : hdr -> hdr -> tvres) (maxcap : N) (from 
     | _ => honest_evs_b drift tv maxcap from c top (step drift tv maxcap from s ev) rest avs
     end
   end.
+
+(** ** a type-level Verify that may panic
+
+    [session.processResponses] (UnmarshalBinary, Validate, VerifyRange) runs under a
+    [recover]: a panic there makes the answer a failed one. [verifyChunkBoundaries] calls
+    [header.Verify] outside any recover. The functions below are the faithful versions for a
+    header type whose own Verify may panic ([TVPanics]); Proofs/SessionP.v relates them to the
+    functions above instantiated with [recovered tvp]. *)
+
+Inductive tvres_p := TVRes (r : tvres) | TVPanics.
+
+(** the panicking verifier with every panic turned into a plain rejection *)
+Definition recovered (tvp : hdr -> hdr -> tvres_p) (t u : hdr) : tvres :=
+  match tvp t u with TVRes r => r | TVPanics => TVPlain 0 end.
+
+(** header.Verify; [None] = the type-level Verify panicked (it is only called when the
+    mandatory checks passed) *)
+Definition Verify_p (now drift : Z) (tvp : hdr -> hdr -> tvres_p) (t u : hdr) : option (option verr) :=
+  match verify_mand now drift t u, tvp t u with
+  | None, TVPanics => None
+  | _, _ => Some (Verify now drift (recovered tvp) t u)
+  end.
+
+Fixpoint verify_range_loop_p (now drift : Z) (tvp : hdr -> hdr -> tvres_p) (first : bool)
+         (t : hdr) (l : list hdr) : option (list hdr * option verr) :=
+  match l with
+  | [] => Some ([], None)
+  | u :: r =>
+    match Verify_p now drift tvp t u with
+    | None => None
+    | Some (Some e) => Some ([], Some e)
+    | Some None =>
+      if negb first && negb (wrap64 (h_height t + 1) =? h_height u)
+      then Some ([], Some (VErr RNonAdjacent false))
+      else match verify_range_loop_p now drift tvp false u r with
+           | None => None
+           | Some (v, e) => Some (u :: v, e)
+           end
+    end
+  end.
+
+Definition VerifyRange_p (now drift : Z) (tvp : hdr -> hdr -> tvres_p) (t : hdr) (l : list hdr)
+  : option (list hdr * option verr) :=
+  match l with
+  | [] => Some ([], Some (VErr REmptyRange false))
+  | _ => verify_range_loop_p now drift tvp true t l
+  end.
+
+Definition session_verify_p (now drift : Z) (tvp : hdr -> hdr -> tvres_p) (from : hdr) (hs : list hdr)
+  : option (list hdr * option verr) :=
+  if h_nil from then Some (hs, None) else VerifyRange_p now drift tvp from hs.
+
+Definition do_request_p (now drift : Z) (tvp : hdr -> hdr -> tvres_p) (from : hdr) (r : req)
+           (fs : list frame) : dres :=
+  match process_responses (takeN (r_amount r) fs) with
+  | inl e => DErr e
+  | inr hs =>
+    match session_verify_p now drift tvp from hs with
+    | None => DErr POther             (* recover() in session.processResponses *)
+    | Some (_, Some _) => DErr POther
+    | Some (h, None) =>
+      match h with
+      | [] => DPanic
+      | h0 :: _ => if h_height h0 =? r_origin r then DOk h else DErr POther
+      end
+    end
+  end.
+
+(** verifyChunkBoundaries: no recover around header.Verify *)
+Fixpoint boundaries_p (now drift : Z) (tvp : hdr -> hdr -> tvres_p) (prev : list hdr)
+         (cs : list (list hdr)) : bres :=
+  match cs with
+  | [] => BOk
+  | c :: r =>
+    match prev, c with
+    | [], _ | _, [] => BPanic
+    | _ :: _, u :: _ =>
+      match Verify_p now drift tvp (last prev hdr_nil) u with
+      | None => BPanic                 (* the panic reaches the caller of GetRangeByHeight *)
+      | Some (Some _) => BErr
+      | Some None => boundaries_p now drift tvp c r
+      end
+    end
+  end.
+
+Definition verify_chunk_boundaries_p (now drift : Z) (tvp : hdr -> hdr -> tvres_p) (from : hdr)
+           (chunks : list (list hdr)) : bres :=
+  if h_nil from then BOk
+  else if existsb is_nil chunks then BPanic
+  else match sort_c chunks with
+       | [] => BOk
+       | c :: r => boundaries_p now drift tvp c r
+       end.
+
+Definition finish_p (now drift : Z) (tvp : hdr -> hdr -> tvres_p) (from : hdr)
+           (coll : list hdr) (chunks : list (list hdr)) : result :=
+  match verify_chunk_boundaries_p now drift tvp from chunks with
+  | BOk => ROk (sort_h coll)
+  | BErr => RErr ENotChain
+  | BPanic => RPanic
+  end.
+
+(** [step] with the panicking verifier (same text, [do_request_p] and [finish_p]) *)
+Definition step_p (drift : Z) (tvp : hdr -> hdr -> tvres_p) (maxcap : N) (from : hdr)
+           (s : sess) (ev : event) : sess :=
+  match s_res s with
+  | Some _ => s
+  | None =>
+    match ev with
+    | ECtxDone => set_res s (RErr ECtx)
+    | EStop => set_res s (RErr EClosed)
+    | EDispatch p r =>
+      match remove_peer p (s_idle s), remove_req r (s_queue s) with
+      | Some idle', Some queue' =>
+        Sess (s_amount s) queue' idle' ((p, r) :: s_flight s) (s_coll s) (s_chunks s) None
+      | _, _ => s
+      end
+    | ERespond p now fs =>
+      match take_flight p (s_flight s) with
+      | None => s
+      | Some (r, flight') =>
+        match do_request_p now drift tvp from r fs with
+        | DPanic => set_res s RPanic
+        | DErr e =>
+          Sess (s_amount s) (s_queue s ++ [r])
+               (match e with PNotFound => s_idle s ++ [p] | _ => s_idle s end)
+               flight' (s_coll s) (s_chunks s) None
+        | DOk h =>
+          let rem := remaining r h in
+          let requeue :=
+            if 0 <? rem then
+              match prepare_requests maxcap (wrap64 (h_height (last h hdr_nil) + 1)) rem (r_amount r) with
+              | PROk (x :: _) => inr [x]
+              | PROk [] | PRPanic => inl RPanic
+              | PRFuel => inl RFuel
+              end
+            else inr [] in
+          match requeue with
+          | inl bad => set_res s bad
+          | inr rq =>
+            let coll' := s_coll s ++ h in
+            let chunks' := s_chunks s ++ [h] in
+            Sess (s_amount s) (s_queue s ++ rq) (s_idle s ++ [p]) flight' coll' chunks'
+                 (if s_amount s <=? N.of_nat (length coll')
+                  then Some (finish_p now drift tvp from coll' chunks') else None)
+          end
+        end
+      end
+    end
+  end.
+
+Fixpoint run_p (drift : Z) (tvp : hdr -> hdr -> tvres_p) (maxcap : N) (from : hdr)
+         (s : sess) (evs : list event) : sess :=
+  match evs with
+  | [] => s
+  | ev :: r => run_p drift tvp maxcap from (step_p drift tvp maxcap from s ev) r
+  end.
+
+(** the call, for a header type whose Verify may panic *)
+Definition GetRangeByHeight_p (drift : Z) (tvp : hdr -> hdr -> tvres_p) (maxcap per : N)
+           (from : hdr) (to : N) (peers : list N) (evs : list event) : option result :=
+  s_res (run_p drift tvp maxcap from (get_range maxcap per from to peers) evs).
+
+(** Exchange.performRequest (Get, GetByHeight): the request goes to all trusted peers at once;
+    [answers] are their answers in the order in which they arrive; the first answer that
+    processes without error wins, an erroneous one (NOT_FOUND, empty, garbage) is skipped *)
+Fixpoint perform_request (want : option N) (answers : list (list frame)) : option hdr :=
+  match answers with
+  | [] => None
+  | fs :: rest =>
+    match request_one want fs with
+    | Some h => Some h
+    | None => perform_request want rest
+    end
+  end.
